@@ -80,6 +80,9 @@ def find_code(tokens):
     return out
 
 
+FENCE_PLUGINS = ["strikethrough", "mark", "insert", "superscript", "subscript", "footnotes", "table", "url", "abbr", "def_list", "math", "ruby", "task_lists", "spoiler"]
+
+
 def check_fenced(m, r, fails):
     fc = r.choice(["`", "~"])
     fl = r.choice([3, 3, 4, 6])
@@ -100,9 +103,14 @@ def check_fenced(m, r, fails):
     else:
         lines = [fc * fl + info] + body + [fc * fl]
         expected = "".join(l + "\n" for l in body)
+    if r.random() < 0.3:
+        # the fence directly below a line of text: it interrupts the paragraph (inside the container as well)
+        lines = [r.choice(["Some text:", "as follows", "x", "See (1) below;"])] + lines
     doc = wrap(lines, container)
-    ast_md = m.create_markdown(renderer=None)
-    html_md = m.create_markdown()
+    # code is code whatever plugins are loaded (the ready-made mistune.html loads four, speedup among them)
+    plugins = r.choice([None, None, None, ["speedup"], ["strikethrough", "footnotes", "table", "speedup"], FENCE_PLUGINS, FENCE_PLUGINS + ["speedup"]])
+    ast_md = m.create_markdown(renderer=None, plugins=plugins)
+    html_md = m.create_markdown(plugins=plugins)
     try:
         codes = find_code(ast_md(doc))
         out = html_md(doc)
@@ -110,17 +118,24 @@ def check_fenced(m, r, fails):
         fails.append({"input": doc, "kind": "exception", "got": "%s: %s" % (type(e).__name__, e)})
         return
     if len(codes) != 1 or codes[0].get("raw") != expected:
-        f = {"input": doc, "container": container, "kind": "fenced-code-not-verbatim", "expected": expected, "got": [c.get("raw") for c in codes]}
+        f = {"input": doc, "container": container, "plugins": plugins, "kind": "fenced-code-not-verbatim", "expected": expected, "got": [c.get("raw") for c in codes]}
         if len(codes) == 1 and container in ("bullet", "ordered", "list-in-quote", "quote-in-list"):
             # mechanism of the known finding: the only differences are lines of white space that came back empty
             e, g = expected.split("\n"), (codes[0].get("raw") or "").split("\n")
             if len(e) == len(g) and e != g and all(a == b or (a.strip(" ") == "" and b == "") for a, b in zip(e, g)):
                 f["class"] = "whitespace-only-line-in-item-code"
+        if plugins and "def_list" in plugins and any(re.match(r":[ \t]", l) for l in body):
+            # mechanism of the known finding: with the definition-list plugin a line of text above the fence and a body line that
+            # begins like a definition make a definition list out of the opening fence; without that plugin the same document is fine
+            rest = [x for x in plugins if x != "def_list"]
+            c2 = find_code(m.create_markdown(renderer=None, plugins=rest)(doc))
+            if len(c2) == 1 and c2[0].get("raw") == expected:
+                f["class"] = "def-list-head-swallows-fence"
         fails.append(f)
         return
     mm = re.findall(r"<pre><code[^>]*>(.*?)</code></pre>", out, re.S)
     if len(mm) != 1 or htmlmod.unescape(mm[0]) != expected:
-        fails.append({"input": doc, "container": container, "kind": "html-code-does-not-unescape-to-body", "expected": expected, "got": mm})
+        fails.append({"input": doc, "container": container, "plugins": plugins, "kind": "html-code-does-not-unescape-to-body", "expected": expected, "got": mm})
 
 
 def check_indented(m, r, fails):
@@ -275,7 +290,7 @@ def classify(f, known):
 
 
 def check_known(ctx, k):
-    toks = ctx.mistune.create_markdown(renderer=None)(k["input"])
+    toks = ctx.mistune.create_markdown(renderer=None, plugins=k.get("plugins"))(k["input"])
     if isinstance(k["wrong"], list):
         return [s["raw"] for s in _spans(toks)] == k["wrong"]
     codes = find_code(toks)
